@@ -47,14 +47,16 @@ def _pieces(a0, a1):
     return [t0 + (t1 - t0) * i / n for i in range(n + 1)]
 
 
-def quad_log(f, a0, a1):
-    """int_a0^a1 f(a) da with the substitution a = e^t; raises unless mpmath's own error estimate is < 1e-15 |value|."""
+def quad_log(f, a0, a1, relative=True):
+    """int_a0^a1 f(a) da with the substitution a = e^t; raises unless mpmath's own error estimate is < 1e-15 |value|
+    (relative=False: < 1e-18 max(1, |value|), for callers that exponentiate the result)."""
     _dps()
     if a0 == a1:
         return mp.mpf(0)
     val, err = mp.quad(lambda t: f(mp.exp(t)) * mp.exp(t), _pieces(a0, a1), error=True)
     # relative guard: for nearly equal limits the value itself is tiny (down to 1e-20)
-    if err > mp.mpf(10) ** (-15) * abs(val) + mp.mpf(10) ** (-45):
+    bound = mp.mpf(10) ** (-15) * abs(val) + mp.mpf(10) ** (-45) if relative else mp.mpf(10) ** (-18) * max(1, abs(val))
+    if err > bound:
         raise ArithmeticError(f"reference quadrature did not converge: err={err} val={val}")
     return val
 
@@ -77,7 +79,7 @@ def ns_exact(gammas, betas, a0, a1):
     def f(a):
         return sum(g * a ** (k + 1) for k, g in enumerate(gs)) / beta_poly(betas, a)
 
-    return mp.exp(quad_log(f, a0, a1))
+    return mp.exp(quad_log(f, a0, a1, relative=False))
 
 
 def inv_series(b, nterms):
